@@ -2,6 +2,37 @@
 from props import _compose, _graph
 
 
+def msgpack_objects(chk):
+    """Ownership of msgpack::objects::Binary / Extension buffers (new[] / delete[]):
+    move construction/assignment and repeated reads into one object, under ASan."""
+    import os
+    from vlib import run as vrun, build
+    lines = []
+    path = os.path.join(build.VERIF, "corpus", "msgpack_c11.ops")
+    if os.path.exists(path):
+        lines = [l.strip() for l in open(path) if l.strip() and not l.startswith("#")]
+    rng = chk.rng
+    def hx(n):
+        return "".join("%02x" % rng.randrange(256) for _ in range(n)) or "-"
+    for _ in range(20 if chk.tier == "quick" else 300):
+        lines.append("mv bin %s %s" % (hx(rng.choice([0, 1, 2, 5])), hx(rng.choice([0, 1, 3, 8]))))
+        lines.append("mv ext %d %s %d %s" % (rng.randrange(-128, 128), hx(rng.choice([0, 1, 2, 4])), rng.randrange(-128, 128), hx(rng.choice([0, 1, 4, 16]))))
+    try:
+        dis, judged, crashes = chk.correspond("msgpack", "h_msgpack", [lines], stateful=False,
+                                              judge=lambda l, i, m: ("`%s` %s" % (l, i)) if i.startswith("crash") else None)
+    except Exception as e:   # family not available in this tree
+        chk.notes.append("msgpack objects run skipped: %r" % (e,))
+        return
+    for j in judged:
+        chk.report("msgpack:objects:%s:%s" % (j["line"].split()[1] if len(j["line"].split()) > 1 else "?", j["impl"].split()[-1]),
+                   "ownership of a msgpack object buffer: " + j["what"],
+                   {"family": "msgpack", "harness": "h_msgpack", "lines": [j["line"]], "observed_impl": j["impl"], "model": j["model"]})
+    for d in dis:
+        if not d["impl"].startswith("crash"):
+            chk.report("correspondence:msgpack:" + d["line"].split()[0], "model and implementation disagree on `%s` (impl `%s`, model `%s`)" % (d["line"], d["impl"], d["model"]),
+                       {"family": "msgpack", "harness": "h_msgpack", "lines": [d["line"]], "broken": "correspondence msgpack/h_msgpack"}, found_input=False)
+
+
 def run(chk):
     chk.rule = ("all correspondence runs of the kernel, graph and function families under AddressSanitizer + UBSan with leak detection at exit "
                 "(detect_leaks=1, alloc_dealloc_mismatch=1) on both CPU backends; canary-filled raw tensors from a new_handle-overriding device "
@@ -9,10 +40,11 @@ def run(chk):
                 "the ends of their ranges. Theorems: index bounds of every kernel model under the front-end guard, writes-all, ownership "
                 "bookkeeping. Non-trivial = accepted call; distinct = distinct lines.")
     libs = _compose.load(_compose.KERNEL_LIBS, chk)
-    _compose.obligations(chk, "C11", libs, own_mods=["PrimitivModel.Props.C11"], own_drivers=_graph.DRIVERS)
+    _compose.obligations(chk, "C11", libs, own_mods=["PrimitivModel.Props.C11"], own_drivers=_graph.DRIVERS + ["msgpack"])
     for lib in libs:
         _compose.run_lib(lib, chk, "C11")
     _graph.run_family(chk, {"C11", "C10"}, tier="quick")
+    msgpack_objects(chk)
     _compose.finish(chk)
     chk.trusted += ["memory safety of C++ that is not index arithmetic or ownership bookkeeping (iterator invalidation, object lifetime, library internals) is observed only by the sanitizers on the generated histories",
                     "tensor handle ownership is C07's model; MessagePack object ownership is checked in C13/C14's harness runs"]
